@@ -278,6 +278,84 @@ Definition attachedb (h : hole) (name : nat) (d v tol : Q) : bool :=
         end) (seq 0 (length (h_verts h)))
   end.
 
+(* ======================= the hole with its cached path =======================
+   Drillhole._locations caches the station coordinates; the collar and surveys setters reset it; desurvey reads the
+   cache (filling it when empty) but recomputes the depth table and the deviations from the current surveys. *)
+Section DHole.
+  Variable ang : Type.
+  Variable dir : ang -> V3.
+
+  Record dhole := {
+    d_collar : V3;
+    d_surveys : list (Q * ang);
+    d_locs : option (list V3);        (* self._locations *)
+    d_data : hole
+  }.
+
+  Inductive dop :=
+  | DSetCollar (c : V3)                       (* well.collar = c *)
+  | DSetSurveys (s : list (Q * ang))          (* well.surveys = s *)
+  | DQuery (ds : list Q)                      (* well.desurvey(ds) *)
+  | DCall (subs : list hop).                  (* well.add_data({...}) *)
+
+  Inductive dobs :=
+  | OQuery (ps : list (option V3))
+  | OCall (vr : list vrow) (cr : list crow).
+
+  (* the `locations` getter *)
+  Definition d_locations (h : dhole) : list V3 :=
+    match d_locs h with Some l => l | None => locations dir (d_collar h) (d_surveys h) end.
+
+  Definition d_pos (locs : list V3) (s : list (Q * ang)) (d : Q) : V3 :=
+    match desurvey_with dir locs (augment s) d with Some p => p | None => vzero end.
+
+  Definition dstep (h : dhole) (op : dop) : dhole * option dobs :=
+    match op with
+    | DSetCollar c => ({| d_collar := c; d_surveys := d_surveys h; d_locs := None; d_data := d_data h |}, None)
+    | DSetSurveys s => ({| d_collar := d_collar h; d_surveys := s; d_locs := None; d_data := d_data h |}, None)
+    | DQuery ds =>
+        let locs := d_locations h in
+        ({| d_collar := d_collar h; d_surveys := d_surveys h; d_locs := Some locs; d_data := d_data h |},
+         Some (OQuery (map (desurvey_with dir locs (augment (d_surveys h))) ds)))
+    | DCall subs =>
+        let locs := d_locations h in
+        let data := hcall (d_pos locs (d_surveys h)) (d_data h) subs in
+        (* every validate_* call desurveys, so the cache is filled as soon as the call has a data set *)
+        ({| d_collar := d_collar h; d_surveys := d_surveys h;
+            d_locs := match subs with [] => d_locs h | _ => Some locs end; d_data := data |},
+         Some (OCall (vrows data) (crows data)))
+    end.
+
+  Fixpoint drun (h : dhole) (ops : list dop) : dhole * list dobs :=
+    match ops with
+    | [] => (h, [])
+    | op :: r =>
+        let '(h1, o) := dstep h op in
+        let '(h2, os) := drun h1 r in
+        (h2, match o with Some x => x :: os | None => os end)
+    end.
+
+  (* the specification: no cache, the path is recomputed from the CURRENT collar and surveys at every use *)
+  Definition dstep_spec (h : dhole) (op : dop) : dhole * option dobs :=
+    dstep {| d_collar := d_collar h; d_surveys := d_surveys h; d_locs := None; d_data := d_data h |} op.
+
+  Definition dfresh (collar : V3) (s : list (Q * ang)) : dhole :=
+    {| d_collar := collar; d_surveys := s; d_locs := None; d_data := empty_hole |}.
+End DHole.
+Arguments d_collar {ang}. Arguments d_surveys {ang}. Arguments d_locs {ang}. Arguments d_data {ang}.
+Arguments DSetCollar {ang}. Arguments DSetSurveys {ang}. Arguments DQuery {ang}. Arguments DCall {ang}.
+Arguments dstep {ang}. Arguments drun {ang}. Arguments dstep_spec {ang}. Arguments dfresh {ang}.
+Arguments d_locations {ang}. Arguments d_pos {ang}.
+
+Fixpoint drun_spec {ang : Type} (dir : ang -> V3) (h : dhole ang) (ops : list (dop ang)) : dhole ang * list dobs :=
+  match ops with
+  | [] => (h, [])
+  | op :: r =>
+      let '(h1, o) := dstep_spec dir h op in
+      let '(h2, os) := drun_spec dir h1 r in
+      (h2, match o with Some x => x :: os | None => os end)
+  end.
+
 (* ---------------- executable comparison ---------------- *)
 Definition vrow_eqb (a b : vrow) : bool :=
   let '(d1, p1, v1) := a in let '(d2, p2, v2) := b in oq_eqb d1 d2 && veqb p1 p2 && list_eqb oq_eqb v1 v2.
@@ -318,3 +396,13 @@ Fixpoint hole_agree (collar : V3) (s : list (Q * azdip)) (h : hole) (calls : lis
       perm_eqb vrow_eqb (vrows h') ov && list_eqb crow_eqb (crows h') oc && hole_agree collar s h' r ro
   | _, _ => false
   end.
+
+(* histories with collar / survey changes and position queries *)
+Definition dobs_eqb (a b : dobs) : bool :=
+  match a, b with
+  | OQuery p, OQuery q => list_eqb opt_veqb p q
+  | OCall v c, OCall v' c' => perm_eqb vrow_eqb v v' && list_eqb crow_eqb c c'
+  | _, _ => false
+  end.
+Definition dh_agree (collar : V3) (s : list (Q * azdip)) (ops : list (dop azdip)) (obs : list dobs) : bool :=
+  list_eqb dobs_eqb (snd (drun dir_exact (dfresh collar s) ops)) obs.
